@@ -217,6 +217,11 @@ def build(tier, repo):
         r7, w, [("coneprog", "conelp"), ("coneprog", "coneqp"), ("cvxprog", "cpl")],
         ["maxiters", "reltol", "abstol", "feastol", "refinement", "show_progress", "kktreg"]))
     r7.require(30)
+    from .. import w7_rules as w7
+    r8 = chk.rule("C09-R8", "every solver computes the relative gap by the same if-chain (gap/-pcost if pcost < 0, gap/dcost if dcost > 0, else None)",
+                  "the termination test on the relative gap is the documented one in every solver and at every exit")
+    chk.note_analysed("relgap_chains", w7.sibling_chain_rule(r8, {mn + ".py": w.mods[mn].tree for mn in ("coneprog", "cvxprog")}, "relgap", 3))
+    r8.require(6)
     return chk
 
 
